@@ -131,11 +131,19 @@ def flt (j : Json) : Except String C18.Flt := do
 def etyStr : C08.ETy → String
   | .op => "op" | .dep => "dep" | .launch => "launch" | .kk => "kk" | .sync => "sync"
 
-def c08Graph (rs : List Row) (ann : String) (iS iE : Nat) (zl : Bool) : Json :=
+def c08Waits (j : Json) : Except String C08.Waits :=
+  match j.getObjVal? "waits" with
+  | .error _ => return []
+  | .ok v => do
+    (← getArr v).toList.mapM fun x => do
+      let a ← getArr x
+      return (← getInt a[0]!, ← getInt a[1]!, ← getInt a[2]!)
+
+def c08Graph (rs : List Row) (ws : C08.Waits) (ann : String) (iS iE : Nat) (zl : Bool) : Json :=
   match C08.window rs ann iS iE with
   | none => Json.mkObj [("window", Json.null)]
   | some w =>
-    let (clipped, g) := C08.build rs w zl
+    let (clipped, g) := C08.build rs ws w zl
     let nodes := (C08.nodesOf clipped).map fun (n, ts) => Json.arr #[jInt n.ev, Json.bool n.isStart, jInt ts]
     let edges := g.edges.map fun e =>
       let a := (g.attr.find? fun x => x.1 == e.src && x.2.1 == e.dst).map (·.2.2)
@@ -361,7 +369,7 @@ def handle (j : Json) : Except String Json := do
     let iS ← getInt (← field j "i_start")
     let iE ← getInt (← field j "i_end")
     let zl ← getBool (← field j "zero_launch")
-    return c08Graph rs ann iS.toNat iE.toNat zl
+    return c08Graph rs (← c08Waits j) ann iS.toNat iE.toNat zl
   | "c08.check" =>
     -- the implementation's own graph: edges [srcEv,srcStart,dstEv,dstStart,weight,type] and a rank
     -- [[ev,isStart,rank]...] taken from a topological order
@@ -494,7 +502,7 @@ def handle (j : Json) : Except String Json := do
     match C08.window rs ann iS.toNat iE.toNat with
     | none => return Json.mkObj [("window", Json.null)]
     | some w =>
-      let (clipped, g) := C08.build rs w zl
+      let (clipped, g) := C08.build rs (← c08Waits j) w zl
       let edges := crit.filterMap fun (a, b) => g.edges.find? fun e => e.src == a && e.dst == b
       match C10.breakdown clipped g edges with
       | none => return Json.mkObj [("raises", Json.bool true), ("found", jInt edges.length)]
